@@ -70,6 +70,17 @@ CLAIMED = {
              "compared with a twin freshly built from the spec's definition; deep-copy independence is checked in both directions.",
         technique="TLA+ state machine (Geomdl, MC_C12, MC_C12c) enumerated by TLC; spec->code replay of every history against a fresh twin",
         design="4 C12"),
+    "C10": dict(
+        text="For every shape and container of the lattice, translation vector, scale factor, axis and rational rotation angle, with and "
+             "without inplace, TLC checks that every evaluated point moves as the map applied to the original point (weights unchanged) and the "
+             "replay compares the returned objects' definitions, identity semantics, untouched inputs and the re-sampled points.",
+        technique="TLA+ spec (Ops affine maps, MC_C10) model-checked exhaustively with TLC; spec->code replay of every transition",
+        design="4 C10"),
+    "C19": dict(
+        text="For every shape, every single-component perturbation (each coordinate, weight, interior knot, degree) and the kind/rationality "
+             "twins, == and != are evaluated both ways and compared with the definition of equality; reflexivity and deep copies included.",
+        technique="TLA+ spec (MC_C19, EqDef) model-checked exhaustively with TLC; spec->code replay of every pair",
+        design="4 C19"),
 }
 
 PENDING_REASON = "check not built yet (work in progress, see DESIGN.md section 8 build order)"
